@@ -460,6 +460,13 @@ impl Hub {
     pub fn set_sched(&self, ctl: Option<Arc<SchedCtl>>) {
         *self.sched.write() = ctl;
     }
+
+    /// A client operation completed (used to tell whether a perturbed window was exercised).
+    pub fn op_done(&self) {
+        if let Some(ctl) = self.sched.read().as_ref() {
+            ctl.op_done();
+        }
+    }
 }
 
 pub fn file_id(path: &str) -> FileId {
